@@ -165,12 +165,32 @@ pub fn generate(seed: u64, tier: Tier) -> Case {
             params.intended_valid = false;
         }
     }
+    // Something else is built in between, in the same process: another project, more often
+    // than not one that fails (in resolution, in layout, when its file is written). Whatever
+    // that leaves behind in the process, the builds of this input do not notice.
+    let mut builds = builds;
+    if family != "exhaustive_small" && rng.chance(1, 6) {
+        let cfg2 = GenCfg::swarm(&mut rng, 6, 2);
+        let mut other = gen_valid(&mut rng, &cfg2, ptr);
+        for _ in 0..rng.below(3) {
+            inject_error(&mut rng, &mut other);
+        }
+        worlds.push(World::from_files(ptr, other.files()));
+        let w = worlds.len() - 1;
+        let extra = rng.range(1, 3);
+        for mut b in diverse_builds(&mut rng, w, extra, None, false) {
+            b.world = w;
+            let at = rng.range(1, builds.len());
+            builds.insert(at, b);
+        }
+        params.notes.push("other_project_built_in_between".into());
+    }
     // Rebuild in place: some builds start in the output directory an earlier build of the same
     // input left behind (complete after a success, half-finished after a failure). The result
     // is a function of the input set, not of what the output directory held.
     if family != "exhaustive_small" && rng.chance(1, 5) {
         for bi in 1..builds.len() {
-            if rng.chance(1, 2) {
+            if builds[bi].world == builds[bi - 1].world && rng.chance(1, 2) {
                 params.chain.push((bi, bi - 1));
             }
         }
@@ -1107,7 +1127,7 @@ pub fn evaluate(case: &Case, results: &[Vec<RunResult>]) -> Verdict {
                 );
             }
         }
-        if case.params.intended_valid && !first.outcome.succeeded() {
+        if w == 0 && case.params.intended_valid && !first.outcome.succeeded() {
             return Verdict::Vacuous(format!(
                 "intended-valid world rejected: {}",
                 first.outcome.brief()
